@@ -1,5 +1,5 @@
 CONSTANTS Ids = {1} Peers = {"A", "B"} Horizon = 3 Arr = 1
 SPECIFICATION MSpec
 INVARIANTS RequestsJustified NoStaleRequests
-CONSTRAINT Small
+CONSTRAINT SmallQ
 CHECK_DEADLOCK FALSE
